@@ -227,6 +227,7 @@ def hash_pairs(ctx, seed):
     se = objs["SoundEvent"]
     yield "SoundEvent", "near_features", se, se.model_copy(update={"features": []})
     yield from neighbour_pairs(objs, g.rng)
+    yield from same_number_pairs(objs, g.rng)
 
 
 # ------------------------------------------------------- nearest neighbours of an object
@@ -299,6 +300,34 @@ def neighbour_pairs(objs, rng, cap=24):
                     continue
                 n += 1
                 yield name, "neighbour:" + ".".join(str(p) for p in path if not isinstance(p, int)) + ":" + type(v).__name__, a, b
+
+
+def same_number_pairs(objs, rng, cap=10):
+    """The SAME number held two ways at one leaf of two otherwise identical objects: 0.0 / -0.0 (``round(-0.0004, 3)``,
+    ``-1 * 0.0``), 1.0 / 1 (a whole float against an int assigned or passed through unvalidated).  Python calls the
+    numbers equal; whether the objects are equal is the library's business, equal objects must then hash equally."""
+    for name, a in objs.items():
+        leaves = [(p, v) for p, v in _leaves(a) if isinstance(v, (int, float)) and not isinstance(v, bool)]
+        rng.shuffle(leaves)
+        n = 0
+        for path, v in leaves:
+            in_coordinates = "coordinates" in path
+            # 0.0 is a valid time and a valid frequency; only the first point / lower bounds are replaced so that the
+            # geometry stays ordered
+            reps = []
+            if not in_coordinates or all(i == 0 for i in path[path.index("coordinates") + 1:-1]) and path[-1] in (0, 1):
+                reps.append(("signed_zero", 0.0, -0.0))
+            if not in_coordinates:
+                reps.append(("whole_float_vs_int", 1.0, 1))
+            for label, x, y in reps:
+                if n >= cap:
+                    break
+                try:
+                    pa, pb = _with(a, path, x), _with(a, path, y)
+                except Exception:
+                    continue
+                n += 1
+                yield name, f"same_number:{label}:" + ".".join(str(p) for p in path if not isinstance(p, int)), pa, pb
 
 
 _CHILD = r"""
